@@ -1,3 +1,229 @@
-(* C33 — placeholder while the proofs are being written *)
-From Coq Require Import List NArith.
+(* C33 — tags reach a remote cluster only after their blobs do.
+   Statements only; every proof is `exact <lemma from Proof/C33*.v>`.
+
+   `exec e` (Model/C33.v) is one execution of Executor.Exec for a tag replication task in the
+   environment e: e_has / e_origin / e_put are the remote build-index's answers, e_deps is the
+   task's dependency list, each dependency with what the local origin cluster does when asked
+   to replicate it (resolve ok?, per origin a script of answers and a 202 back-off budget).
+   All theorems are over every environment: every dependency list, every number of origins,
+   every finite answer script (200 / 202 / any other status / no response), every budget. *)
+From Coq Require Import List NArith Bool.
 From K.Model Require Import C33.
+From K.Model Require Retry.
+From K.Proof Require C33 C33_retry.
+Import ListNotations.
+Local Open Scope N_scope.
+
+(* ---- clause 1: the put comes only after every dependency was confirmed *)
+
+(* in every trace, a put-and-replicate of the tag is preceded, within the same execution, by a
+   replicate request answered 200 for every dependency of the task *)
+Theorem C33_order : forall e pre r post,
+  trace e = pre ++ EPut r :: post ->
+  forall d, In d (deps e) -> exists o, In (ERepl d o (RCode 200)) pre.
+Proof. exact Proof.C33.order. Qed.
+Print Assumptions C33_order.
+
+(* the complete shape of a trace with a put: Has (not present), Origin (ok), then one
+   conversation per dependency in list order, each `confirmed`: owners resolved, earlier origins
+   given up without a 200, then ONE origin answering 202 n times (n within its budget) and
+   then 200 — success = a 200 after any number of 202s —, and the put is the last request *)
+Theorem C33_order_segments : forall e pre r post,
+  trace e = pre ++ EPut r :: post ->
+  r = e_put e /\ post = [] /\
+  exists segs, pre = EHas (e_has e) :: EOrigin (e_origin e) :: concat segs /\
+               Forall2 Proof.C33.confirmed (e_deps e) segs /\
+               is200 (e_has e) = false /\ is200 (e_origin e) = true.
+Proof. exact Proof.C33.put_shape. Qed.
+Print Assumptions C33_order_segments.
+
+Theorem C33_put_once_last : forall e pre r post,
+  trace e = pre ++ EPut r :: post -> post = [] /\ forall x, In x pre -> is_put x = false.
+Proof. exact Proof.C33.put_once_last. Qed.
+Print Assumptions C33_put_once_last.
+
+(* ---- clause 2: any failed step fails the task *)
+
+(* the task succeeds exactly when the remote already has the tag, or the origin lookup, the
+   replication of every dependency and the put all succeed *)
+Theorem C33_failure_is_error : forall e,
+  verdict e = Ok <->
+  is200 (e_has e) = true \/
+  (is200 (e_origin e) = true /\ (forall de, In de (e_deps e) -> snd (replicate de) = true) /\
+   is200 (e_put e) = true).
+Proof. exact Proof.C33.verdict_ok_iff. Qed.
+Print Assumptions C33_failure_is_error.
+
+(* replicating one dependency succeeds exactly when its owners resolve and the first origin that
+   does not pass the poll on answers 200 after n <= budget answers 202 *)
+Theorem C33_replicate_success_iff : forall de,
+  snd (replicate de) = true <->
+  d_resolve de = true /\
+  exists k x n rest,
+    nth_error (d_origins de) k = Some x /\
+    (forall j y, (j < k)%nat -> nth_error (d_origins de) j = Some y -> Proof.C33.o_outcome y = PNext) /\
+    n <= o_budget x /\ o_script x = repeat (RCode 202) (N.to_nat n) ++ RCode 200 :: rest.
+Proof. exact Proof.C33.replicate_success_iff. Qed.
+Print Assumptions C33_replicate_success_iff.
+
+(* ... where an origin passes the poll on exactly when, after n <= budget answers 202, it is gone,
+   gives no response, answers >= 500, or answers 202 once more than the back-off allows *)
+Theorem C33_origin_passes_on_iff : forall sc bud,
+  Proof.C33.outcome sc bud = PNext <->
+  exists n, n <= bud /\ firstn (N.to_nat n) sc = repeat (RCode 202) (N.to_nat n) /\
+    match skipn (N.to_nat n) sc with
+    | [] => True
+    | RNet :: _ => True
+    | RCode c :: _ => 500 <= c \/ (c = 202 /\ n = bud)
+    end.
+Proof. exact Proof.C33.outcome_next. Qed.
+Print Assumptions C33_origin_passes_on_iff.
+
+(* a failing dependency ends the execution at once: earlier dependencies were confirmed, the
+   trace ends with the failing conversation, later dependencies are not touched, no put *)
+Theorem C33_failure_stops : forall e,
+  is200 (e_has e) = false -> is200 (e_origin e) = true ->
+  (exists de, In de (e_deps e) /\ snd (replicate de) = false) ->
+  exists done de rest segs tf,
+    e_deps e = done ++ de :: rest /\ Forall2 Proof.C33.confirmed done segs /\
+    replicate de = (tf, false) /\
+    exec e = (EHas (e_has e) :: EOrigin (e_origin e) :: concat segs ++ tf, Err).
+Proof. exact Proof.C33.failure_stops. Qed.
+Print Assumptions C33_failure_stops.
+
+(* ---- clause 2b: the failed task is retried until the remote holds the tag.
+   The persisted-retry manager (Model/Retry.v, owned by C30) with the executor's verdicts taken
+   from `exec`: whatever the manager, the clock, crashes and restarts do, the row of a task
+   leaves the store only by the worker's Remove after an execution of that task that ended with
+   the remote cluster holding the tag (its build-index said so, or it answered 200 to a put that
+   came after the confirmation of every dependency) *)
+Theorem C33_retried_until_held : forall cfg cops c t,
+  forallb Proof.C33_retry.honest (cops ++ [c]) = true ->
+  let s := fst (Retry.run (Retry.init cfg) (map Proof.C33_retry.lower cops)) in
+  Retry.storedb t (Retry.s_store s) = true ->
+  Retry.storedb t (Retry.s_store (fst (Retry.step s (Proof.C33_retry.lower c)))) = false ->
+  Proof.C33_retry.lower c = Retry.OpExecFin t /\
+  exists e, In (Proof.C33_retry.CExec t e) cops /\ verdict e = Ok /\ Proof.C33_retry.remote_holds e.
+Proof. exact Proof.C33_retry.retried_until_held. Qed.
+Print Assumptions C33_retried_until_held.
+
+(* until then every step keeps the row (a failed execution only marks it failed), so C30's
+   theorems (no lost task, restart recovers, progress possible) keep applying to it *)
+Theorem C33_kept_unless_success : forall cfg cops o t,
+  let s := fst (Retry.run (Retry.init cfg) (map Proof.C33_retry.lower cops)) in
+  Retry.storedb t (Retry.s_store s) = true ->
+  Retry.last_ev t (Retry.s_log s) <> Some (Retry.ERet t true) ->
+  Retry.storedb t (Retry.s_store (fst (Retry.step s o))) = true.
+Proof. exact Proof.C33_retry.kept_unless_success. Qed.
+Print Assumptions C33_kept_unless_success.
+
+(* ---- clause 3: nothing is sent when the tag is already present remotely *)
+
+Theorem C33_noop_when_present : forall e,
+  is200 (e_has e) = true -> exec e = ([EHas (e_has e)], Ok).
+Proof. exact Proof.C33.noop_when_present. Qed.
+Print Assumptions C33_noop_when_present.
+
+(* and the presence check is always the first request *)
+Theorem C33_first_request_is_has : forall e, exists t, trace e = EHas (e_has e) :: t.
+Proof. exact Proof.C33.first_is_has. Qed.
+Print Assumptions C33_first_request_is_has.
+
+(* ---- Poll (cluster_client.go:389-431) *)
+
+(* the origins are asked in their resolved order and never gone back to *)
+Theorem C33_poll_in_order : forall d o os, Proof.C33.sorted_from o (fst (poll d o os)).
+Proof. exact Proof.C33.poll_sorted. Qed.
+Print Assumptions C33_poll_in_order.
+
+(* at most budget + 1 requests go to one origin *)
+Theorem C33_poll_bounded : forall d o sc bud,
+  (length (fst (poll_origin d o sc bud)) <= N.to_nat bud + 1)%nat.
+Proof. exact Proof.C33.poll_origin_bounded. Qed.
+Print Assumptions C33_poll_bounded.
+
+(* ---- the origin's replicate handler (server.go:322-358): it answers 200 exactly when it had
+   the blob and the upload to the remote cluster succeeded, so the 200s of C33_order mean
+   "confirmed present in the remote origin cluster" *)
+Theorem C33_handler_200_iff_uploaded : forall h, handler h = 200 <-> uploaded h = true.
+Proof. exact Proof.C33.handler_200. Qed.
+Print Assumptions C33_handler_200_iff_uploaded.
+
+Theorem C33_handler_202_iff_fetching : forall h,
+  handler h = 202 <-> h_cache h = CAbsent /\ (h_refresh h = FStarted \/ h_refresh h = FPending).
+Proof. exact Proof.C33.handler_202. Qed.
+Print Assumptions C33_handler_202_iff_fetching.
+
+(* ---- executable form used on observed traces *)
+Theorem C33_check_sound : forall e, C33_check e (trace e) (verdict e) = true.
+Proof. exact Proof.C33.check_sound. Qed.
+Print Assumptions C33_check_sound.
+
+(* and what a passing check says about ANY observed trace, independent of the model *)
+Theorem C33_check_means : forall e tr res,
+  C33_check e tr res = true ->
+  (forall pre r post, tr = pre ++ EPut r :: post ->
+     post = [] /\ forall d, In d (deps e) -> exists o, In (ERepl d o (RCode 200)) pre) /\
+  (exists r t, tr = EHas r :: t /\ (is200 r = true -> t = [])) /\
+  (res = Ok <-> success_shape tr = true).
+Proof. exact Proof.C33.check_means. Qed.
+Print Assumptions C33_check_means.
+
+(* ---- non-vacuity *)
+
+(* three dependencies, two origins: 202-202-200 on the first origin; a 503 then 202-200 on the
+   second; a dead first origin; then the put *)
+Example C33_nonvacuous_order :
+  exec (mkenv (RCode 404) (RCode 200)
+          [mkdep 1 true [mkorigin [RCode 202; RCode 202; RCode 200] 5; mkorigin [RCode 200] 5];
+           mkdep 2 true [mkorigin [RCode 503] 5; mkorigin [RCode 202; RCode 200] 5];
+           mkdep 3 true [mkorigin [] 5; mkorigin [RCode 200] 5]]
+          (RCode 200))
+  = ([EHas (RCode 404); EOrigin (RCode 200);
+      EResolve 1 true; ERepl 1 0 (RCode 202); ERepl 1 0 (RCode 202); ERepl 1 0 (RCode 200);
+      EResolve 2 true; ERepl 2 0 (RCode 503); ERepl 2 1 (RCode 202); ERepl 2 1 (RCode 200);
+      EResolve 3 true; ERepl 3 0 RNet; ERepl 3 1 (RCode 200);
+      EPut (RCode 200)], Ok).
+Proof. vm_compute. reflexivity. Qed.
+
+(* a failed step: the back-off of the only origin of dependency 2 runs out; dependency 3 is
+   not touched, no put, the task fails *)
+Example C33_nonvacuous_failure :
+  exec (mkenv (RCode 404) (RCode 200)
+          [mkdep 1 true [mkorigin [RCode 200] 1];
+           mkdep 2 true [mkorigin [RCode 202; RCode 202; RCode 200] 1];
+           mkdep 3 true [mkorigin [RCode 200] 1]]
+          (RCode 200))
+  = ([EHas (RCode 404); EOrigin (RCode 200);
+      EResolve 1 true; ERepl 1 0 (RCode 200);
+      EResolve 2 true; ERepl 2 0 (RCode 202); ERepl 2 0 (RCode 202)], Err).
+Proof. vm_compute. reflexivity. Qed.
+
+(* a 4xx from the first origin is final: the second origin, which has the blob, is not asked *)
+Example C33_nonvacuous_4xx_final :
+  exec (mkenv (RCode 404) (RCode 200)
+          [mkdep 1 true [mkorigin [RCode 404] 5; mkorigin [RCode 200] 5]] (RCode 200))
+  = ([EHas (RCode 404); EOrigin (RCode 200); EResolve 1 true; ERepl 1 0 (RCode 404)], Err).
+Proof. vm_compute. reflexivity. Qed.
+
+Example C33_nonvacuous_present :
+  exec (mkenv (RCode 200) (RCode 200) [mkdep 1 true [mkorigin [RCode 200] 5]] (RCode 200))
+  = ([EHas (RCode 200)], Ok).
+Proof. vm_compute. reflexivity. Qed.
+
+(* the oracle rejects a put that overtakes a dependency, a put after which something is sent,
+   a reported success without a put, and a request after "present" *)
+Example C33_check_rejects :
+  let e := mkenv (RCode 404) (RCode 200)
+             [mkdep 1 true [mkorigin [RCode 200] 5]; mkdep 2 true [mkorigin [RCode 200] 5]] (RCode 200) in
+  C33_check e [EHas (RCode 404); EOrigin (RCode 200); EResolve 1 true; ERepl 1 0 (RCode 200);
+               EPut (RCode 200); EResolve 2 true; ERepl 2 0 (RCode 200)] Ok = false /\
+  C33_check e [EHas (RCode 404); EOrigin (RCode 200); EResolve 1 true; ERepl 1 0 (RCode 200);
+               EResolve 2 true; ERepl 2 0 (RCode 202); EPut (RCode 200)] Ok = false /\
+  C33_check e [EHas (RCode 404); EOrigin (RCode 200); EResolve 1 true; ERepl 1 0 (RCode 500)] Ok = false /\
+  C33_check e [EHas (RCode 404); EOrigin (RCode 200); EResolve 1 true; ERepl 1 0 (RCode 200);
+               EResolve 2 true; ERepl 2 0 (RCode 200); EPut (RCode 500)] Ok = false /\
+  C33_check e [EHas (RCode 200); EOrigin (RCode 200)] Ok = false /\
+  C33_check e [EHas (RCode 404); EOrigin (RCode 200); EResolve 1 true; ERepl 1 0 (RCode 200);
+               EResolve 2 true; ERepl 2 0 (RCode 200); EPut (RCode 200)] Ok = true.
+Proof. vm_compute. repeat split; reflexivity. Qed.
